@@ -327,3 +327,102 @@ def zd1(P, C):
          ("%d uses that need ndim >= 1, all behind the exit for ndim == 0" % len(hazards)) if hazards and not bad else
          "%s at %s is reached with ndim == 0 (the empty permutation of an empty table passes the validation)" % (bad[0][1], f.loc(bad[0][0])) if bad else
          "no hazard found (scratch arrays no longer sized by ndim?)")
+
+
+def zero_dim_value(P, f, e, depth=0):
+    """value of integer expression e in a member function of an EMPTY table (ndim == 0, every array null), or None when unknown:
+    literals, ndim, + - *, std::accumulate over [p, p+n) with n == 0 (its initial value), calls to parameterless members whose body is
+    `return <expression>`."""
+    e = f.strip(e)
+    n = f.nodes[e]
+    k = n["k"]
+    if "cv" in n and k in ("IntegerLiteral", "ParenExpr", "ImplicitCastExpr", "CStyleCastExpr", "CXXFunctionalCastExpr"):
+        return n["cv"]
+    if k == "IntegerLiteral":
+        return n.get("v")
+    if k == "MemberExpr":
+        r = ts.root_member(f, e)
+        return 0 if r and r[0] == "ndim" and r[1] == 0 else None
+    if k == "BinaryOperator" and n.get("op") in ("+", "-", "*"):
+        a, b = (zero_dim_value(P, f, x, depth) for x in n["ch"])
+        if a is None or b is None:
+            return None
+        return a + b if n["op"] == "+" else a - b if n["op"] == "-" else a * b
+    cal = n.get("callee")
+    if cal and cal["name"] == "accumulate" and cal["qname"].startswith("std::"):
+        a = f.args(e)
+        if len(a) >= 3:
+            first, last = f.strip(a[0]), f.strip(a[1])
+            ln = f.nodes[last]
+            if ln["k"] == "BinaryOperator" and ln.get("op") == "+" and f.render(ln["ch"][0]) == f.render(first) and zero_dim_value(P, f, ln["ch"][1], depth) == 0:
+                return zero_dim_value(P, f, a[2], depth)
+        return None
+    if cal and depth < 3 and not f.args(e):
+        gs = [g for g in P.fns(cal["name"]) if g.usr == cal.get("usr")]
+        if gs:
+            g = gs[0]
+            kids = [x for x in g.ch(g.body)] if g.k(g.body) == "CompoundStmt" else []
+            if len(kids) == 1 and g.k(kids[0]) == "ReturnStmt" and g.ch(kids[0]):
+                return zero_dim_value(P, g, g.ch(kids[0])[0], depth + 1)
+    return None
+
+
+def es1(P, C):
+    """ES-1: comparison is total — operator== does not touch an element of an array that an empty table does not have."""
+    C.rule("ES-1", "operator== may be applied to any two tables, empty ones included (a default-constructed, moved-from or failed-to-read table "
+           "has ndim == 0 and every array null): each range of an owned array that it compares outside a loop over the dimensions has a length "
+           "that is 0 when ndim is 0, or is behind an exit taken when ndim == 0", floor=3)
+    f = [g for g in P.fns("operator==") if g.cls == ts.CLS and g.unit == "driver"]
+    if not f:
+        raise core.AnalysisBroken("ES-1: operator== of the table not found")
+    f = f[0]
+    pos = f.node_positions()
+    dom = f.dominators()
+
+    def at(i):
+        while i >= 0 and i not in pos:
+            i = f.parent[i]
+        return pos.get(i)
+    guards = []
+    for i in f.walk():
+        if f.k(i) != "IfStmt":
+            continue
+        c, neg = core.cond_polarity(f, f.nodes[i]["cond"])
+        n = f.nodes[c]
+        zero = False
+        if n["k"] == "BinaryOperator" and n["op"] == "==" and not neg:
+            orr = f.oriented(c, lambda x: bool(ts.root_member(f, x)) and ts.root_member(f, x)[0] == "ndim")
+            zero = bool(orr) and f.nodes[orr[2]].get("cv") == 0
+        if n["k"] == "MemberExpr" and ts.root_member(f, c) and ts.root_member(f, c)[0] == "ndim" and neg:
+            zero = True
+        if zero and any(f.k(y) == "ReturnStmt" for y in f.walk(f.nodes[i]["then"])):
+            guards.append(i)
+    n_ob = 0
+    for i, cal in f.calls():
+        if not cal or cal["name"] not in ("equal", "mismatch", "memcmp", "lexicographical_compare"):
+            continue
+        a = f.args(i)
+        if len(a) < 2:
+            continue
+        r = ts.root_member(f, a[0])
+        if not r or r[2] != "this":
+            continue
+        in_dim_loop = any(f.k(x) == "ForStmt" and "ndim" in f.render(f.nodes[x]["cond"]) for x in f.ancestors(i))
+        first, last = f.strip(a[0]), f.strip(a[1])
+        ln = f.nodes[last]
+        L = ln["ch"][1] if ln["k"] == "BinaryOperator" and ln.get("op") == "+" and f.render(ln["ch"][0]) == f.render(first) else None
+        v = zero_dim_value(P, f, L) if L is not None else None
+        guarded = False
+        for g in guards:
+            pg, ph = at(f.strip(f.nodes[g]["cond"])), at(i)
+            if pg and ph and ((pg[0] == ph[0] and pg[1] < ph[1]) or (pg[0] != ph[0] and pg[0] in dom.get(ph[0], ()))):
+                guarded = True
+        ok = in_dim_loop or v == 0 or guarded
+        n_ob += 1
+        C.ob("ES-1", "operator==", "range:%s" % r[0], ok, f.loc(i),
+             ("compares %s over a range that is empty for an empty table%s" % (r[0], " (inside a loop over the dimensions)" if in_dim_loop else " (behind the exit for ndim == 0)" if guarded and v != 0 else ""))
+             if ok else
+             "compares %s elements of %s when ndim == 0 — but an empty table has no %s array: two empty tables cannot be compared (null dereference)"
+             % ("an unknown number of" if v is None else v, r[0], r[0]))
+    if n_ob == 0:
+        raise core.AnalysisBroken("ES-1: operator== compares no range of an owned array")
